@@ -21,9 +21,11 @@ import (
 	"go/constant"
 	"go/token"
 	"go/types"
+	"math"
 	"sort"
 	"strconv"
 	"strings"
+	"time"
 	"unicode"
 	"unicode/utf8"
 
@@ -99,6 +101,15 @@ type SeqV struct{ Items []AV }
 // BufV models a bytes.Buffer / strings.Builder.
 type BufV struct{ S []byte }
 
+// FloatV is a floating-point value (go/constant cannot hold NaN or ±Inf).
+type FloatV struct{ F float64 }
+
+// TimeV is a time.Time held natively.
+type TimeV struct{ T time.Time }
+
+// StrDataV is the *byte that unsafe.StringData returns for a string.
+type StrDataV struct{ S string }
+
 // ExtFn is a function value supplied by the rule (a hook, a user's lazy generator): calling it goes to Interp.OnExt.
 type ExtFn struct{ Name string }
 
@@ -127,8 +138,12 @@ type Interp struct {
 	PoolNew    map[*Obj]*ssa.Function // sync.Pool.New by pool object
 	SyncMaps   map[*Obj]*MapV         // sync.Map contents by map object
 	Trace      []string               // notable library calls, in order
+	// OnMarshal models encoding/json.Marshal on an abstract value.
+	OnMarshal func(ip *Interp, v AV) ([]byte, error)
+	Atomics   map[string]AV // values of sync/atomic typed variables, by cell identity
 	pcOf       map[string]int
 	pcName     []string
+	initDone   bool
 	depth      int
 	nextID     int
 }
@@ -220,6 +235,12 @@ func avString(v AV) string {
 		return "iface(" + avString(x.V) + ")"
 	case *MapV:
 		return fmt.Sprintf("map[%d]", len(x.M))
+	case *FloatV:
+		return strconv.FormatFloat(x.F, 'g', -1, 64)
+	case *TimeV:
+		return x.T.Format(time.RFC3339Nano)
+	case *StrDataV:
+		return "strdata"
 	}
 	return fmt.Sprintf("%T", v)
 }
@@ -253,7 +274,7 @@ func (ip *Interp) zeroOf(t types.Type) AV {
 		case u.Info()&types.IsString != 0:
 			return kStr("")
 		case u.Info()&types.IsFloat != 0:
-			return constant.MakeFloat64(0)
+			return &FloatV{}
 		case u.Kind() == types.UnsafePointer || u.Kind() == types.UntypedNil:
 			return NilV{}
 		}
@@ -262,6 +283,9 @@ func (ip *Interp) zeroOf(t types.Type) AV {
 	case *types.Struct:
 		if isNamed(t, "bytes", "Buffer") || isNamed(t, "strings", "Builder") {
 			return &BufV{}
+		}
+		if isNamed(t, "time", "Time") {
+			return &TimeV{}
 		}
 		s := &StructV{F: make([]AV, u.NumFields())}
 		for i := 0; i < u.NumFields(); i++ {
@@ -323,6 +347,103 @@ func (p *Ptr) load() AV {
 		ood("read of an unmodelled memory cell")
 	}
 	return copyVal(v)
+}
+
+// initGlobals evaluates the package initialiser leniently, once: every instruction that stays inside the modelled
+// fragment is executed (composite-literal tables, constants, pools), every other one is skipped together with
+// whatever depends on it. Variables a rule has already given a value keep it.
+func (ip *Interp) initGlobals() {
+	if ip.initDone || ip.c.LogS == nil {
+		return
+	}
+	ip.initDone = true
+	ini := ip.c.LogS.Func("init")
+	if ini == nil || len(ini.Blocks) == 0 {
+		return
+	}
+	preset := map[*Obj]bool{}
+	for _, o := range ip.Globals {
+		if o.V != nil {
+			preset[o] = true
+		}
+	}
+	saveSteps, saveDepth, saveStack := ip.Steps, ip.depth, ip.Stack
+	defer func() { ip.Steps, ip.depth, ip.Stack = saveSteps, saveDepth, saveStack }()
+	ip.depth, ip.Stack = 0, nil
+	fr := &aframe{fn: ini, env: map[ssa.Value]AV{}}
+	b := ini.Blocks[0]
+	var prev *ssa.BasicBlock
+	for steps := 0; steps < 20000 && b != nil; steps++ {
+		var next *ssa.BasicBlock
+		for _, in := range b.Instrs {
+			done := false
+			func() {
+				defer func() {
+					if x := recover(); x != nil {
+						switch x.(type) {
+						case oodError, panicError:
+							// skipped
+						default:
+							panic(x)
+						}
+					}
+				}()
+				switch x := in.(type) {
+				case *ssa.Phi:
+					for i, pb := range b.Preds {
+						if pb == prev {
+							fr.env[x] = ip.operand(fr, x.Edges[i])
+						}
+					}
+				case *ssa.If:
+					cond := false
+					func() {
+						defer func() { recover() }()
+						cond = avBool(ip.operand(fr, x.Cond))
+					}()
+					if cond {
+						next = b.Succs[0]
+					} else {
+						next = b.Succs[1]
+					}
+					// the init guard: proceed with initialisation
+					if ld, ok := x.Cond.(*ssa.UnOp); ok {
+						if g, ok := ld.X.(*ssa.Global); ok && strings.HasPrefix(g.Name(), "init$guard") {
+							next = b.Succs[1]
+						}
+					}
+					done = true
+				case *ssa.Jump:
+					next = b.Succs[0]
+					done = true
+				case *ssa.Return, *ssa.Panic:
+					done = true
+				case *ssa.Store:
+					p, ok := ip.operand(fr, x.Addr).(*Ptr)
+					if !ok {
+						return
+					}
+					if preset[p.O] {
+						return
+					}
+					p.store(ip.operand(fr, x.Val))
+				case *ssa.MapUpdate, *ssa.DebugRef, *ssa.Defer, *ssa.Go, *ssa.Send, *ssa.RunDefers:
+				case ssa.Value:
+					if call, isCall := x.(*ssa.Call); isCall {
+						// only pure modelled library calls and module constructors of plain values; registrations are skipped
+						if cal := call.Call.StaticCallee(); cal != nil && cal.Pkg == ip.c.LogS && cal.Signature.Results().Len() == 0 {
+							return
+						}
+					}
+					fr.env[x] = ip.value(fr, x)
+				}
+			}()
+			if done {
+				break
+			}
+		}
+		prev, b = b, next
+	}
 }
 
 func (p *Ptr) store(nv AV) {
@@ -403,7 +524,7 @@ func avEqual(a, b AV) bool {
 		switch y := b.(type) {
 		case NilV:
 			return true
-		case *Sym, *Ptr, *SliceV, *Closure, *IfaceV, *MapV, *ExtFn, *SeqV:
+		case *Sym, *Ptr, *SliceV, *Closure, *IfaceV, *MapV, *ExtFn, *SeqV, *StrDataV:
 			_ = y
 			return false
 		}
@@ -460,9 +581,17 @@ func avEqual(a, b AV) bool {
 			}
 			return true
 		}
-	case *SliceV, *MapV, *Closure, *ExtFn, *SeqV:
+	case *SliceV, *MapV, *Closure, *ExtFn, *SeqV, *StrDataV:
 		if _, ok := b.(NilV); ok {
 			return false
+		}
+	case *FloatV:
+		if y, ok := b.(*FloatV); ok {
+			return x.F == y.F
+		}
+	case *TimeV:
+		if y, ok := b.(*TimeV); ok {
+			return x.T == y.T
 		}
 	}
 	ood("comparison of %s with %s", avString(a), avString(b))
@@ -487,6 +616,13 @@ func (ip *Interp) operand(fr *aframe, v ssa.Value) AV {
 		}
 		if b, ok := x.Type().Underlying().(*types.Basic); ok && b.Info()&types.IsInteger != 0 && x.Value.Kind() != constant.Int {
 			return constant.ToInt(x.Value)
+		}
+		if b, ok := x.Type().Underlying().(*types.Basic); ok && b.Info()&types.IsFloat != 0 {
+			f, _ := constant.Float64Val(constant.ToFloat(x.Value))
+			if b.Kind() == types.Float32 {
+				f = float64(float32(f))
+			}
+			return &FloatV{F: f}
 		}
 		return x.Value
 	case *ssa.Parameter:
@@ -671,6 +807,9 @@ func (ip *Interp) apply(cc *ssa.CallCommon, fv AV, args []AV) AV {
 			ood("interface method %s on %s", cc.Method.Name(), avString(fv))
 		}
 		if sym, isSym := iv.V.(*Sym); isSym {
+			if cc.Method.Name() == "Error" && strings.HasPrefix(sym.Name, "error:") {
+				return kStr(strings.TrimPrefix(sym.Name, "error:"))
+			}
 			if ip.OnInvoke != nil {
 				if r, ok := ip.OnInvoke(ip, sym, cc.Method.Name(), args); ok {
 					return r
@@ -717,6 +856,19 @@ func (ip *Interp) apply(cc *ssa.CallCommon, fv AV, args []AV) AV {
 	return nil
 }
 
+// InvokeMethod calls method name on the dynamic value of iv (used by rule hooks that play the part of user code).
+func (ip *Interp) InvokeMethod(iv *IfaceV, name string, args ...AV) AV {
+	var pkg *types.Package
+	if ip.c.LogS != nil {
+		pkg = ip.c.LogS.Pkg
+	}
+	m := ip.c.Prog.LookupMethod(iv.T, pkg, name)
+	if m == nil {
+		ood("method %s of %s not found", name, iv.T)
+	}
+	return ip.callFn(m, append([]AV{iv.V}, args...), nil)
+}
+
 func (ip *Interp) callFn(fn *ssa.Function, args []AV, free []AV) AV {
 	if r, ok := ip.model(fn, args); ok {
 		return r
@@ -749,10 +901,18 @@ func (ip *Interp) value(fr *aframe, v ssa.Value) AV {
 			if !ok {
 				rtPanic("nil pointer dereference")
 			}
+			if p.O.V == nil {
+				if _, isGlobal := x.X.(*ssa.Global); isGlobal {
+					ip.initGlobals()
+				}
+			}
 			return p.load()
 		case token.NOT:
 			return kBool(!avBool(a))
 		case token.SUB:
+			if f, ok := a.(*FloatV); ok {
+				return &FloatV{F: -f.F}
+			}
 			k, ok := a.(constant.Value)
 			if !ok {
 				ood("negation of %s", avString(a))
@@ -776,6 +936,43 @@ func (ip *Interp) value(fr *aframe, v ssa.Value) AV {
 		ood("unary %s", x.Op)
 	case *ssa.BinOp:
 		a, b := ip.operand(fr, x.X), ip.operand(fr, x.Y)
+		if fa, ok := a.(*FloatV); ok {
+			if fb, ok := b.(*FloatV); ok {
+				is32 := false
+				if bt, ok := x.X.Type().Underlying().(*types.Basic); ok && bt.Kind() == types.Float32 {
+					is32 = true
+				}
+				rnd := func(f float64) AV {
+					if is32 {
+						f = float64(float32(f))
+					}
+					return &FloatV{F: f}
+				}
+				switch x.Op {
+				case token.ADD:
+					return rnd(fa.F + fb.F)
+				case token.SUB:
+					return rnd(fa.F - fb.F)
+				case token.MUL:
+					return rnd(fa.F * fb.F)
+				case token.QUO:
+					return rnd(fa.F / fb.F)
+				case token.EQL:
+					return kBool(fa.F == fb.F)
+				case token.NEQ:
+					return kBool(fa.F != fb.F)
+				case token.LSS:
+					return kBool(fa.F < fb.F)
+				case token.LEQ:
+					return kBool(fa.F <= fb.F)
+				case token.GTR:
+					return kBool(fa.F > fb.F)
+				case token.GEQ:
+					return kBool(fa.F >= fb.F)
+				}
+				ood("float operation %s", x.Op)
+			}
+		}
 		ka, oka := a.(constant.Value)
 		kb, okb := b.(constant.Value)
 		if oka && okb {
@@ -834,6 +1031,11 @@ func (ip *Interp) value(fr *aframe, v ssa.Value) AV {
 		case NilV:
 			rtPanic("index out of range [%d] with length 0", i)
 		case *Ptr: // pointer to array
+			if s.O.V == nil {
+				if _, isGlobal := x.X.(*ssa.Global); isGlobal {
+					ip.initGlobals()
+				}
+			}
 			arr, ok := s.peek().(*ArrV)
 			if !ok {
 				ood("index of non-array")
@@ -1080,6 +1282,40 @@ func (it *iterV) next(ip *Interp, isString bool) AV {
 func (ip *Interp) convert(a AV, from, to types.Type) AV {
 	tb, _ := to.Underlying().(*types.Basic)
 	fb, _ := from.Underlying().(*types.Basic)
+	if f, ok := a.(*FloatV); ok && tb != nil {
+		switch {
+		case tb.Kind() == types.Float32:
+			return &FloatV{F: float64(float32(f.F))}
+		case tb.Info()&types.IsFloat != 0:
+			return &FloatV{F: f.F}
+		case tb.Info()&types.IsInteger != 0:
+			if math.IsNaN(f.F) || math.IsInf(f.F, 0) {
+				ood("conversion of a non-finite float to an integer")
+			}
+			r, ok := convertConst(constant.MakeInt64(int64(f.F)), to)
+			if !ok {
+				ood("float to integer")
+			}
+			return r
+		}
+	}
+	if k, ok := a.(constant.Value); ok && tb != nil && tb.Info()&types.IsFloat != 0 && k.Kind() == constant.Int {
+		var f float64
+		if fb != nil && fb.Info()&types.IsUnsigned != 0 {
+			u, _ := constant.Uint64Val(k)
+			f = float64(u)
+		} else {
+			i, _ := constant.Int64Val(k)
+			f = float64(i)
+		}
+		if tb.Kind() == types.Float32 {
+			f = float64(float32(f))
+		}
+		return &FloatV{F: f}
+	}
+	if _, ok := a.(*StrDataV); ok {
+		return a // *byte ↔ unsafe.Pointer
+	}
 	if k, ok := a.(constant.Value); ok {
 		if tb != nil && tb.Info()&types.IsString != 0 {
 			if k.Kind() == constant.String {
@@ -1246,6 +1482,23 @@ func (ip *Interp) builtin(name string, args []AV, cc *ssa.CallCommon) AV {
 		return TupleV{}
 	case "panic":
 		rtPanic("explicit panic")
+	case "StringData":
+		return &StrDataV{S: avStr(args[0])}
+	case "String":
+		switch p := args[0].(type) {
+		case *StrDataV:
+			n := int(avInt(args[1]))
+			if n < 0 || n > len(p.S) {
+				rtPanic("unsafe.String: length out of range")
+			}
+			return kStr(p.S[:n])
+		case NilV:
+			if avInt(args[1]) == 0 {
+				return kStr("")
+			}
+			rtPanic("unsafe.String: ptr is nil and len is not zero")
+		}
+		ood("unsafe.String of %s", avString(args[0]))
 	}
 	ood("builtin %s", name)
 	return nil
@@ -1446,6 +1699,9 @@ func (ip *Interp) model(fn *ssa.Function, args []AV) (res AV, ok bool) {
 			return kStr("sprintf(" + constant.StringVal(f) + ")"), true
 		}
 		return kStr("sprintf(?)"), true
+	}
+	if r, ok := ip.model2(fn, name, args); ok {
+		return r, true
 	}
 	s := func(i int) string { return avStr(args[i]) }
 	n := func(i int) int { return int(avInt(args[i])) }
